@@ -14,6 +14,7 @@ evaluator's verdict for every fuel `f' ≥ f`.**
 -/
 import AstGrepVerif.Lemmas.RuleRef
 import AstGrepVerif.Lemmas.RuleRefVars
+import AstGrepVerif.Lemmas.RuleTotal
 
 set_option linter.unusedSimpArgs false
 set_option linter.unusedVariables false
@@ -169,6 +170,65 @@ theorem pattern_fresh_env (s : Strictness) (src : Bytes) (f : Nat) (p : PNode) (
     matchPatternEnv s src f p c env
       = (matchPatternEnv s src f p c Env.empty).map (Option.map (envAppend env)) :=
   matchPatternEnv_fresh s src (· ∈ p.vars) f p c env (PNode.namesIn_vars p) hfresh
+
+/-! ## Unconditional form: the evaluator ends normally, with an explicit fuel
+
+The remaining abnormal outcomes of `matchRule` are its own recursion budget (`.error .fuel`) and
+whatever the *pattern matcher* reports (`matchPatternEnv … = .error _`: its own budget `matchFuel`,
+or a panic on an exhausted iterator) — since FIX_C11_3 nothing else: `nthChild` arithmetic is
+total.  The first is excluded by an acyclic registry (`RegRanked`: every utility refers, through
+any operator, only to utilities of smaller rank; `RegAcyclicAll` is the decidable instance) and
+the bound below; the second is a hypothesis about the matcher (`PpK … (fun _ => True)`: on every
+pattern of the rule and of the utilities the matcher ends normally; no such fact is proved in
+C02/C03 yet), which also lists the variable names in `K`. -/
+
+open AGV.RuleFuelReg in
+/-- the fuel that suffices: rule size × document size, utilities unfolded along their rank -/
+def fuelBound (ctx : RCtx) (K : List Name) (Kr : Nat) (r : Rule) : Nat :=
+  costG (mcost ctx ctx.root.size K.length Kr) ctx.root.size r
+
+open AGV.RuleFuelReg in
+/-- with `fuelBound` the evaluator ends normally on every node of the document -/
+theorem matchRule_total (ctx : RCtx) (rank : Name → Nat) (hrank : RegRanked ctx rank)
+    (K : List Name) (hreg : RegPats ctx (PpK ctx (fun _ => True) K)) (hnc : NoConstraints ctx)
+    (Kr : Nat) (r : Rule) (hrk : refsBelow rank Kr r = true)
+    (hp : PatsAll (PpK ctx (fun _ => True) K) r) (n : Tree) (hn : n ∈ ctx.root.preorder)
+    (fuel : Nat) (hf : fuelBound ctx K Kr r ≤ fuel) :
+    ∃ res env', matchRule ctx fuel r n Env.empty = .ok (res, env') := by
+  have h := matchRule_noBad_document ctx (fun _ => True) rank hrank K hreg hnc Kr r hrk hp n hn
+    Env.empty (EnvK.empty K) fuel hf
+  rcases hm : matchRule ctx fuel r n Env.empty with e | ⟨res, env'⟩
+  · exact absurd hm (h e trivial)
+  · exact ⟨res, env', rfl⟩
+
+open AGV.RuleFuelReg in
+/-- **`rule_ref_equiv`, unconditional**: for a variable-disjoint rule over an acyclic,
+capture-free registry, on a document with unique ids and no zero-width nodes, the evaluator run
+with `fuelBound` from the empty environment succeeds exactly when the reference semantics (at the
+same fuel) says so — no premise about a normal outcome. -/
+theorem rule_ref_equiv_total (ctx : RCtx) (hctx : CtxVarFree ctx) (hu : Tree.UniqueIds ctx.root)
+    (hz : NoZeroWidth ctx.root) (rank : Name → Nat) (hrank : RegRanked ctx rank)
+    (K : List Name) (hreg : RegPats ctx (PpK ctx (fun _ => True) K))
+    (Kr : Nat) (r : Rule) (hr : r.varDisjoint = true) (hrk : refsBelow rank Kr r = true)
+    (hp : PatsAll (PpK ctx (fun _ => True) K) r) (n : Tree) (hn : n ∈ ctx.root.preorder) :
+    (∃ m env', matchRule ctx (fuelBound ctx K Kr r) r n Env.empty = .ok (some m, env')) ↔
+      sat ctx (fuelBound ctx K Kr r) r n = true := by
+  have hnc : NoConstraints ctx := fun id core hg => (hctx.2 id core hg).2.1
+  obtain ⟨res, env', h⟩ := matchRule_total ctx rank hrank K hreg hnc Kr r hrk hp n hn _ (Nat.le_refl _)
+  exact rule_ref_equiv_vars_iff ctx hctx hu hz r hr n hn _ (res, env') h _ (Nat.le_refl _)
+
+open AGV.RuleFuelReg in
+/-- and for every larger fuel on both sides -/
+theorem rule_ref_equiv_total' (ctx : RCtx) (hctx : CtxVarFree ctx) (hu : Tree.UniqueIds ctx.root)
+    (hz : NoZeroWidth ctx.root) (rank : Name → Nat) (hrank : RegRanked ctx rank)
+    (K : List Name) (hreg : RegPats ctx (PpK ctx (fun _ => True) K))
+    (Kr : Nat) (r : Rule) (hr : r.varDisjoint = true) (hrk : refsBelow rank Kr r = true)
+    (hp : PatsAll (PpK ctx (fun _ => True) K) r) (n : Tree) (hn : n ∈ ctx.root.preorder)
+    (f f' : Nat) (hf : fuelBound ctx K Kr r ≤ f) (hf' : f ≤ f') :
+    (∃ m env', matchRule ctx f r n Env.empty = .ok (some m, env')) ↔ sat ctx f' r n = true := by
+  have hnc : NoConstraints ctx := fun id core hg => (hctx.2 id core hg).2.1
+  obtain ⟨res, env', h⟩ := matchRule_total ctx rank hrank K hreg hnc Kr r hrk hp n hn f hf
+  exact rule_ref_equiv_vars_iff ctx hctx hu hz r hr n hn f (res, env') h f' hf'
 
 /-! ## Navigation -/
 
